@@ -499,3 +499,129 @@ func uptakeReset(p *Prog, r *Report, rule string) {
 	}
 	r.Ob("reset:PE", pos, found, fmt.Sprintf("unconditional zeroing of the uptake demand of all layers after the sub-step loop: %v", found))
 }
+
+// ---------------------------------------------------------------- denitrification of mineral soils
+
+// denitrBalance: in Denitr the nitrate of the top layers is debited in
+// proportion to each layer's share of their sum, and the loss is booked once.
+// Σ shares = 1 only if the shares, the sum and the debit loop range over the
+// same layers; the loss leaves the soil only if it is subtracted; the balance
+// closes only if the counter gains the same amount.
+func denitrBalance(p *Prog, r *Report, rule string) {
+	r.Rule(rule, "denitrification of mineral soils: the debit loop visits exactly the layers whose nitrate makes up the sum the shares are taken of (share_j = C1[j]/Σ), each visited layer loses amount × its own share, and the cumulative counter gains exactly that amount, once, in the same arm", 4)
+	x := walked(p, "hermes.Denitr")
+	if x == nil {
+		r.Ob("Denitr", "-", false, "hermes.Denitr not found")
+		return
+	}
+	// the shares
+	shares := map[int64]Poly{}
+	var S Poly
+	okShares := true
+	for _, e := range x.Events {
+		if e.Kind != "assign" || e.Local != nil && len(e.Idx) == 0 || strings.Contains(e.Root, ".") || len(e.Idx) != 1 {
+			continue
+		}
+		j, isC := e.Idx[0].ConstInt()
+		if !isC || !e.Val.MentionsRoot("GlobalVarsMain.C1") {
+			continue
+		}
+		v := stripVersions(e.Val)
+		s := cellP("GlobalVarsMain.C1", PInt(j)).Div(v)
+		if S.T == nil {
+			S = s
+		} else if !S.Equal(s) {
+			okShares = false
+		}
+		shares[j] = v
+	}
+	var sumIdx []int64
+	for _, t := range S.sortedTerms() {
+		if len(t.M) == 1 && t.M[0].A.Kind == "cell" && t.M[0].A.Root == "GlobalVarsMain.C1" && t.M[0].E == 1 && t.C.Cmp(ratInt(1)) == 0 {
+			if c, ok := t.M[0].A.Idx[0].ConstInt(); ok {
+				sumIdx = append(sumIdx, c)
+				continue
+			}
+		}
+		okShares = false
+	}
+	sort.Slice(sumIdx, func(i, j int) bool { return sumIdx[i] < sumIdx[j] })
+	same := len(sumIdx) == len(shares) && len(sumIdx) > 0
+	for _, j := range sumIdx {
+		if _, ok := shares[j]; !ok {
+			same = false
+		}
+	}
+	r.Ob("shares", "-", okShares && same, fmt.Sprintf("shares are C1[j]/Σ for j in %v with Σ = %s over the same layers: %v", sumIdx, clip(polyOr(S), 80), okShares && same))
+	if !okShares || !same {
+		return
+	}
+	// the debit
+	var deb *Event
+	for _, e := range x.Events {
+		if e.Kind == "assign" && e.Root == "GlobalVarsMain.C1" && len(e.Loops) == 1 && !e.Val.IsZero() {
+			deb = e
+		}
+	}
+	if deb == nil {
+		r.Ob("debit", "-", false, "no debit of the nitrate pool inside a loop")
+		return
+	}
+	L := deb.Loops[0]
+	lo, hi, unit, why := loopBounds(x, L)
+	l0, ok0 := lo.ConstInt()
+	h0, ok1 := hi.ConstInt()
+	okRange := why == "" && unit && ok0 && ok1 && l0 == sumIdx[0] && h0 == sumIdx[len(sumIdx)-1] && int(h0-l0+1) == len(sumIdx)
+	r.Ob("debit:range", p.Pos(L.Stmt.Pos()), okRange, fmt.Sprintf("debit loop visits layers %s..%s; the shares are taken over layers %v (must coincide: a layer left out keeps nitrate that the counter books as lost)", polyOr(lo), polyOr(hi), sumIdx))
+	// ΔC1[z] = −A·share[z]
+	d := deb.Val.Sub(deb.Old)
+	var A Poly
+	okDeb := false
+	{
+		// the share cell of the same layer must be a factor of every term
+		var share *Atom
+		for _, t := range d.T {
+			for _, f := range t.M {
+				if f.A.Kind == "cell" && !strings.Contains(f.A.Root, ".") && len(f.A.Idx) == 1 && f.E == 1 && f.A.Idx[0].Equal(deb.Idx[0]) {
+					share = f.A
+				}
+			}
+		}
+		if share != nil {
+			A = d.Div(PAtom(share)).Neg()
+			okDeb = deb.Idx[0].Equal(PAtom(L.Var)) && !A.MentionsAtom(share)
+			for _, t := range A.T {
+				for _, f := range t.M {
+					if f.E < 0 && f.A == share {
+						okDeb = false
+					}
+				}
+			}
+		}
+	}
+	r.Ob("debit:amount", p.Pos(deb.Pos), okDeb, fmt.Sprintf("ΔC1[%s] = %s (must be −amount × the share of the same layer)", deb.Idx[0], clip(d.String(), 100)))
+	// the counter
+	nC := 0
+	for _, e := range x.Events {
+		if e.Kind == "assign" && e.Root == "GlobalVarsMain.CUMDENIT" {
+			nC++
+			dc := e.Val.Sub(e.Old)
+			nl := func(gs []*Cond) string {
+				var ks []string
+				for _, g := range flattenGuards(gs) {
+					if !g.Loop {
+						ks = append(ks, g.Key())
+					}
+				}
+				sort.Strings(ks)
+				return strings.Join(ks, " ; ")
+			}
+			sameArm := nl(e.Guards) == nl(L.Entry.guards)
+			okC := okDeb && A.T != nil && stripVersions(dc).Equal(stripVersions(A)) && sameArm && len(e.Loops) == 0
+			r.Ob("counter", p.Pos(e.Pos), okC, fmt.Sprintf("ΔCUMDENIT = %s; the layers lose amount = %s in total (must be equal, booked once in the arm that debits: %v)", clip(dc.String(), 60), clip(polyOr(A), 60), sameArm))
+		}
+	}
+	if nC != 1 {
+		r.Ob("counter", "-", false, fmt.Sprintf("%d bookings of the denitrification loss, expected 1", nC))
+	}
+}
